@@ -29,6 +29,7 @@ package memberlist
 //@ ghost $ev Trace
 //@ ghost $bq Trace
 //@ ghost $cf Trace
+//@ ghost $wrapped bool   // set when an atomic counter declared `rely nondecreasing` wraps around
 
 //@ pure dol(st NodeStateType) bool := st == StateDead || st == StateLeft
 //@ pure sr(st NodeStateType) int := ite(st == StateAlive, 0, ite(st == StateSuspect, 1, 2))
@@ -62,7 +63,7 @@ package memberlist
 //@   inv N5b [C06]: forall n string :: has(m.nodeTimers, n) ==> allocated(m.nodeTimers[n])
 //@   inv N6 [C02]: has(m.nodeMap, m.config.Name) ==> m.nodeMap[m.config.Name].State != StateSuspect
 //@   inv N7 [C01]: forall n string :: has(m.nodeMap, n) ==> 0 <= m.nodeMap[n].State && m.nodeMap[n].State <= 3
-//@   inv N9 [C02]: has(m.nodeMap, m.config.Name) && !(dol(m.nodeMap[m.config.Name].State) && m.leave == 1) ==> m.nodeMap[m.config.Name].Incarnation <= m.incarnation
+//@   inv N9 [C02]: !$wrapped && has(m.nodeMap, m.config.Name) && !(dol(m.nodeMap[m.config.Name].State) && m.leave == 1) ==> m.nodeMap[m.config.Name].Incarnation <= m.incarnation
 
 //@ iface EventDelegate.NotifyJoin(n)
 //@   assigns $ev
@@ -108,11 +109,11 @@ package memberlist
 //@   safety [C02,C13]
 //@   requires ok: mlOK(m)
 //@   requires me: me != nil && has(m.nodeMap, m.config.Name) && me == m.nodeMap[m.config.Name]
-//@   requires n9: me.Incarnation <= m.incarnation
-//@   requires nowrap: accusedInc < 4294967295
-//@   assigns nodeState.Incarnation, Memberlist.incarnation, awareness.score, $bq
-//@   ensures above [C02]: me.Incarnation > accusedInc
-//@   ensures up [C01,C02]: me.Incarnation > old(me.Incarnation) && me.Incarnation <= m.incarnation
+//@   requires n9: !$wrapped ==> me.Incarnation <= m.incarnation
+//@   assigns nodeState.Incarnation, Memberlist.incarnation, awareness.score, $bq, $wrapped
+//@   ensures above [C02]: accusedInc < 4294967295 && !$wrapped ==> me.Incarnation > accusedInc
+//@   ensures up [C01,C02]: !$wrapped ==> me.Incarnation > old(me.Incarnation) && me.Incarnation <= m.incarnation
+//@   ensures wrapmono: old($wrapped) ==> $wrapped
 //@   ensures frame [C01]: forall p *nodeState :: p != me ==> p.Incarnation == old(p.Incarnation)
 //@   ensures bq [C02]: $bq == snoc(old($bq), Bq(ext("(net.IP).String", me.Addr), aliveMsg, me.Incarnation, me.Name, "", 0))
 
@@ -124,7 +125,6 @@ package memberlist
 //@   safety [C13,C20]
 //@   monitor Memberlist.nodeLock
 //@   requires ok: mlOK(m) && s != nil
-//@   requires nowrap: s.Incarnation < 4294967295
 //@   let n := s.Node
 //@   let h := old(has(m.nodeMap, s.Node))
 //@   let r := old(m.nodeMap[s.Node])
@@ -134,7 +134,7 @@ package memberlist
 //@   ensures S-ignore [C01]: (!h || s.Incarnation < old(r.Incarnation) || (!t && old(r.State) != StateAlive)) ==> sameView(m) && quiet()
 //@   ensures S-confirm [C01,C06]: h && s.Incarnation >= old(r.Incarnation) && t ==> sameRec(m, n) && sameTimers(m) && $ev == old($ev) && $cf == old($cf)
 //@                  && ($bq == old($bq) || $bq == snoc(old($bq), Bq(n, suspectMsg, s.Incarnation, n, s.From, 0)))
-//@   ensures S-self [C02]: h && s.Incarnation >= old(r.Incarnation) && !t && old(r.State) == StateAlive && n == m.config.Name ==>
+//@   ensures S-self [C02]: h && s.Incarnation >= old(r.Incarnation) && !t && old(r.State) == StateAlive && n == m.config.Name && s.Incarnation < 4294967295 && !$wrapped ==>
 //@                  m.nodeMap[n] == r && r.Incarnation > s.Incarnation && r.State == StateAlive && !has(m.nodeTimers, n) && $ev == old($ev)
 //@                  && $bq == snoc(old($bq), Bq(ext("(net.IP).String", r.Addr), aliveMsg, r.Incarnation, n, "", 0))
 //@   ensures S-suspect [C01,C03,C06]: h && s.Incarnation >= old(r.Incarnation) && !t && old(r.State) == StateAlive && n != m.config.Name ==>
@@ -142,14 +142,13 @@ package memberlist
 //@                  && $bq == snoc(old($bq), Bq(n, suspectMsg, s.Incarnation, n, s.From, 0))
 //@   ensures S-live [C07,C09]: forall x string :: live(m, x) == old(live(m, x))
 //@   ensures S-noev [C07]: $ev == old($ev)
-//@   ensures S-mono [C01]: forall x string :: old(has(m.nodeMap, x)) ==> has(m.nodeMap, x) &&
+//@   ensures S-mono [C01]: !$wrapped ==> forall x string :: old(has(m.nodeMap, x)) ==> has(m.nodeMap, x) &&
 //@                  rankLe(old(m.nodeMap[x].Incarnation), old(m.nodeMap[x].State), m.nodeMap[x].Incarnation, m.nodeMap[x].State)
 
 //@ func (*Memberlist).deadNode(m, d)
 //@   safety [C13,C20]
 //@   monitor Memberlist.nodeLock
 //@   requires ok: mlOK(m) && d != nil
-//@   requires nowrap: d.Incarnation < 4294967295
 //@   let n := d.Node
 //@   let h := old(has(m.nodeMap, d.Node))
 //@   let r := old(m.nodeMap[d.Node])
@@ -158,7 +157,7 @@ package memberlist
 //@   ensures D-list [C01,C07]: sameList(m)
 //@   ensures D-ignore [C01]: (!h || d.Incarnation < old(r.Incarnation)) ==> sameView(m) && quiet()
 //@   ensures D-already [C01]: h && d.Incarnation >= old(r.Incarnation) && dol(old(r.State)) ==> sameRec(m, n) && quiet()
-//@   ensures D-self [C02]: h && d.Incarnation >= old(r.Incarnation) && !dol(old(r.State)) && n == m.config.Name && !left ==>
+//@   ensures D-self [C02]: h && d.Incarnation >= old(r.Incarnation) && !dol(old(r.State)) && n == m.config.Name && !left && d.Incarnation < 4294967295 && !$wrapped ==>
 //@                  m.nodeMap[n] == r && r.Incarnation > d.Incarnation && r.State == old(r.State) && $ev == old($ev)
 //@                  && $bq == snoc(old($bq), Bq(ext("(net.IP).String", r.Addr), aliveMsg, r.Incarnation, n, "", 0))
 //@   ensures D-kill [C01,C07,C08]: h && d.Incarnation >= old(r.Incarnation) && !dol(old(r.State)) && n != m.config.Name ==>
@@ -169,7 +168,7 @@ package memberlist
 //@   ensures D-nojoin [C07]: forall x string :: !old(live(m, x)) ==> !live(m, x)
 //@   ensures D-ev [C07]: m.config.Events != nil ==> ((old(live(m, n)) && !live(m, n)) <==> $ev == snoc(old($ev), EvLeave(n))) && ($ev == old($ev) || $ev == snoc(old($ev), EvLeave(n)))
 //@   ensures D-ev-nil [C07]: m.config.Events == nil ==> $ev == old($ev)
-//@   ensures D-mono [C01]: forall x string :: old(has(m.nodeMap, x)) ==> has(m.nodeMap, x) &&
+//@   ensures D-mono [C01]: !$wrapped ==> forall x string :: old(has(m.nodeMap, x)) ==> has(m.nodeMap, x) &&
 //@                  rankLe(old(m.nodeMap[x].Incarnation), old(m.nodeMap[x].State), m.nodeMap[x].Incarnation, m.nodeMap[x].State)
 //@   ensures D-selfstays [C02]: old(live(m, m.config.Name)) && !left ==> live(m, m.config.Name)
 
@@ -197,7 +196,6 @@ package memberlist
 //@   safety [C13,C20]
 //@   monitor Memberlist.nodeLock
 //@   requires ok: mlOK(m) && a != nil
-//@   requires nowrap: a.Incarnation < 4294967295
 //@   requires boot: bootstrap && a.Node == m.config.Name ==> a.Incarnation <= m.incarnation
 //@   at call time.Since: set $reclaimAge := res
 //@   let n := a.Node
@@ -223,7 +221,7 @@ package memberlist
 //@   let admitted := (h && (sameAddr || (reclaim && ipOK))) || (!h && ipOK)
 //@   let accept := accFilt && admitted && (!self || bootstrap) && ((self && a.Incarnation >= rInc) || (!self && (a.Incarnation > rInc || reclaim)))
 //@   let rec := m.nodeMap[a.Node]
-//@   ensures A-mono [C01]: forall x string :: old(has(m.nodeMap, x)) ==> has(m.nodeMap, x) &&
+//@   ensures A-mono [C01]: !$wrapped ==> forall x string :: old(has(m.nodeMap, x)) ==> has(m.nodeMap, x) &&
 //@                   (rankLe(old(m.nodeMap[x].Incarnation), old(m.nodeMap[x].State), m.nodeMap[x].Incarnation, m.nodeMap[x].State) || (x == n && (reclaim || (self && bootstrap))))
 //@   ensures A-conflict [C01,C08]: accFilt && h && !sameAddr && ipOK && !reclaim ==> sameView(m) && $ev == old($ev) && $bq == old($bq)
 //@                   && (m.config.Conflict != nil ==> $cf == snoc(old($cf), EvConflict(n))) && (m.config.Conflict == nil ==> $cf == old($cf))
@@ -231,7 +229,7 @@ package memberlist
 //@                   && rec.Meta == a.Meta && rec.Addr == a.Addr && rec.Port == a.Port && !has(m.nodeTimers, n)
 //@                   && $bq == snoc(old($bq), Bq(n, aliveMsg, a.Incarnation, n, "", notify)) && $cf == old($cf)
 //@   ensures A-accept-vsn [C09]: accept && len(a.Vsn) >= 6 ==> rec.PMin == a.Vsn[0] && rec.PMax == a.Vsn[1] && rec.PCur == a.Vsn[2] && rec.DMin == a.Vsn[3] && rec.DMax == a.Vsn[4] && rec.DCur == a.Vsn[5]
-//@   ensures A-refute [C02]: accFilt && sameAddr && self && !bootstrap && a.Incarnation >= old(r.Incarnation)
+//@   ensures A-refute [C02]: accFilt && sameAddr && self && !bootstrap && a.Incarnation >= old(r.Incarnation) && a.Incarnation < 4294967295 && !$wrapped
 //@                   && !(a.Incarnation == old(r.Incarnation) && old(bytesEq(a.Meta, r.Meta)) && old(vsnEqRec(a.Vsn, r))) ==>
 //@                   rec == r && r.Incarnation > a.Incarnation && r.State == old(r.State) && r.Meta == old(r.Meta) && r.Addr == old(r.Addr)
 //@                   && $bq == snoc(old($bq), Bq(ext("(net.IP).String", r.Addr), aliveMsg, r.Incarnation, n, "", 0))
@@ -245,3 +243,174 @@ package memberlist
 //@   ensures A-ev-join-sound-self-before-bootstrap [C07]: self && !bootstrap && has(m.nodeMap, n) && $ev == snoc(old($ev), EvJoin(n, rec.Meta)) ==> !old(live(m, n)) && live(m, n)
 //@   ensures A-ev-update-complete [C07]: m.config.Events != nil && old(live(m, n)) && live(m, n) && !bytesEq(rec.Meta, old(r.Meta)) ==> $ev == snoc(old($ev), EvUpdate(n, rec.Meta))
 //@   ensures A-ev-update-sound [C07]: has(m.nodeMap, n) && $ev == snoc(old($ev), EvUpdate(n, rec.Meta)) ==> old(live(m, n)) && live(m, n) && !bytesEq(rec.Meta, old(r.Meta))
+
+// ---------------------------------------------------------------------
+// C13: no-panic sweep of the inbound packet path (zero-annotation safety obligations)
+// ---------------------------------------------------------------------
+
+//@ pure mlNet(m *Memberlist) bool := mlOK(m) && m.highPriorityMsgQueue != nil && m.lowPriorityMsgQueue != nil && m.transport != nil && m.ackHandlers != nil
+
+//@ func (*Memberlist).ingestPacket(m, buf, from, timestamp)
+//@   safety [C13]
+//@   requires ok: mlNet(m) && from != nil
+
+//@ func (*Memberlist).handleCommand(m, buf, from, timestamp)
+//@   safety [C13]
+//@   modular
+//@   requires ok: mlNet(m) && from != nil
+
+//@ func (*Memberlist).handleCompound(m, buf, from, timestamp)
+//@   safety [C13]
+//@   modular
+//@   requires ok: mlNet(m) && from != nil
+
+//@ func decodeCompoundMessage(buf)
+//@   safety [C13]
+
+//@ func RemoveLabelHeaderFromPacket(buf)
+//@   safety [C13,C16]
+
+//@ func decryptPayload(keys, msg, data)
+//@   safety [C13,C14]
+
+//@ func decryptMessage(key, msg, data)
+//@   safety [C13]
+//@   modular
+//@   requires len: len(msg) >= 29
+
+// ackLock: every registered handler is a live object with an ack callback and a reaping timer.
+//@ lock Memberlist.ackLock recv m
+//@   protects map map[uint32]*ackHandler, ackHandler.*
+//@   inv AH1 [C13,C19,C20]: forall q uint32 :: has(m.ackHandlers, q) ==> allocated(m.ackHandlers[q]) && m.ackHandlers[q].ackFn != nil
+//@   inv AH2 [C13,C19,C20]: forall q uint32 :: has(m.ackHandlers, q) ==> m.ackHandlers[q].timer != nil
+
+//@ func (*Memberlist).invokeAckHandler(m, ack, timestamp)
+//@   safety [C13,C19]
+//@   modular
+//@   requires ok: mlNet(m)
+
+//@ func (*Memberlist).invokeNackHandler(m, nack)
+//@   safety [C13,C19]
+//@   modular
+//@   requires ok: mlNet(m)
+
+//@ func (*Memberlist).setAckHandler(m, seqNo, ackFn, timeout)
+//@   safety [C13,C19]
+//@   modular
+//@   requires ok: mlNet(m) && ackFn != nil
+
+//@ func (*Memberlist).setProbeChannels(m, seqNo, ackCh, nackCh, timeout)
+//@   safety [C13,C19]
+//@   modular
+//@   requires ok: mlNet(m)
+
+//@ func (*Memberlist).encodeAndSendMsg(m, a, msgType, msg)
+//@   safety [C13]
+//@   modular
+//@   requires ok: mlNet(m)
+
+//@ func (*Memberlist).handleCompressed(m, buf, from, timestamp)
+//@   safety [C13]
+//@   modular
+//@   requires ok: mlNet(m) && from != nil
+
+//@ func (*Memberlist).handlePing(m, buf, from)
+//@   safety [C13,C19]
+//@   modular
+//@   requires ok: mlNet(m) && from != nil
+
+//@ func (*Memberlist).handleIndirectPing(m, buf, from)
+//@   safety [C13,C19]
+//@   modular
+//@   requires ok: mlNet(m) && from != nil
+
+//@ func (*Memberlist).handleAck(m, buf, from, timestamp)
+//@   safety [C13,C19]
+//@   modular
+//@   requires ok: mlNet(m) && from != nil
+
+//@ func (*Memberlist).handleNack(m, buf, from)
+//@   safety [C13,C19]
+//@   modular
+//@   requires ok: mlNet(m) && from != nil
+
+//@ func (*Memberlist).handleSuspect(m, buf, from)
+//@   safety [C13]
+//@   requires ok: mlNet(m) && from != nil
+
+//@ func (*Memberlist).handleAlive(m, buf, from)
+//@   safety [C13,C18]
+//@   requires ok: mlNet(m) && from != nil
+
+//@ func (*Memberlist).handleDead(m, buf, from)
+//@   safety [C13]
+//@   requires ok: mlNet(m) && from != nil
+
+//@ func (*Memberlist).handleUser(m, buf, from)
+//@   safety [C13]
+//@   requires ok: mlNet(m)
+
+//@ func decompressBuffer(c)
+//@   safety [C13]
+//@   requires nonnil: c != nil
+
+//@ func (*Memberlist).getNextMessage(m)
+//@   safety [C13]
+//@   requires ok: mlNet(m)
+
+// send path (cut points for modular verification; safety only here, budgets under C11)
+//@ func (*Memberlist).sendMsg(m, a, msg)
+//@   safety [C13,C20]
+//@   modular
+//@   requires ok: mlNet(m)
+
+//@ func (*Memberlist).rawSendMsgPacket(m, a, node, msg)
+//@   safety [C13,C20]
+//@   modular
+//@   requires ok: mlNet(m)
+
+//@ func (*Memberlist).rawSendMsgStream(m, conn, sendBuf, streamLabel)
+//@   safety [C13,C20]
+//@   modular
+//@   requires ok: mlNet(m) && conn != nil
+
+//@ func (*Memberlist).getBroadcasts(m, overhead, limit)
+//@   safety [C13,C20]
+//@   modular
+//@   requires ok: mlNet(m)
+
+//@ func encryptPayload(vsn, key, msg, data, dst)
+//@   safety [C13,C20]
+//@   modular
+//@   requires dst: dst != nil
+//@   requires vsn: vsn <= 1
+
+//@ func (*Memberlist).encryptLocalState(m, sendBuf, streamLabel)
+//@   safety [C13,C20]
+//@   modular
+//@   requires ok: mlNet(m) && m.config.Keyring != nil
+
+//@ func makeCompoundMessage(msgs)
+//@   safety [C13,C20]
+//@   modular
+//@   ensures nn: result != nil
+
+//@ func compressPayload(inp, msgpackUseNewTimeFormat)
+//@   safety [C13,C20]
+//@   modular
+//@   ensures nn: result1 == nil ==> result0 != nil
+
+//@ func encode(msgType, in, msgpackUseNewTimeFormat)
+//@   safety [C13,C20]
+//@   modular
+//@   ensures nn: result1 == nil ==> result0 != nil
+
+//@ func pkcs7encode(buf, ignore, blockSize)
+//@   safety [C13,C20]
+//@   requires nn: buf != nil && blockSize > 0
+//@   loop #1 invariant grow [C12,C13]: buflen(buf) >= old(buflen(buf))
+//@   ensures grow [C12]: buflen(buf) >= old(buflen(buf))
+
+//@ func (*TransmitLimitedQueue).GetBroadcasts(q, overhead, limit)
+//@   modular
+//@   requires nn: q != nil
